@@ -2,6 +2,7 @@ package main
 
 import (
 	"fmt"
+	"sort"
 	"strings"
 
 	"github.com/openacid/low/sigbits"
@@ -12,7 +13,26 @@ func init() {
 		ls, bs := sigbits.ShardByPrefix(a[0].Strs(), a[1].I32())
 		return L(I32s(ls), I32s(bs))
 	}
+	// the returned prefixes used as a routing table: every key is looked up by an upper-bound
+	// search (last prefix <= key) over the prefixes keys[B[j]][:L[j]] of the REAL output
+	Exec["sigbits.ShardByPrefix/route"] = func(a []V) string {
+		keys := a[0].Strs()
+		ls, bs := sigbits.ShardByPrefix(keys, a[1].I32())
+		return L(I32s(ls), I32s(bs), I32s(c17Route(keys, ls, bs)))
+	}
 	Register("C17", genC17)
+}
+
+func c17Route(keys []string, ls, bs []int32) []int32 {
+	prefs := make([]string, len(ls))
+	for j := range ls {
+		prefs[j] = keys[bs[j]][:ls[j]]
+	}
+	rs := make([]int32, len(keys))
+	for i, k := range keys {
+		rs[i] = int32(sort.Search(len(prefs), func(j int) bool { return prefs[j] > k })) - 1
+	}
+	return rs
 }
 
 // c17Key: branch-relevant features of one case, read off the keys and the
@@ -62,6 +82,10 @@ func genC17(g *Gen) {
 			key = c17Key(keys, maxSize, ls, bs)
 		}()
 		g.Do("sigbits.ShardByPrefix", L(Strs(keys), Int(maxSize)), key)
+		if key != "" {
+			key = "route/" + key
+		}
+		g.Do("sigbits.ShardByPrefix/route", L(Strs(keys), Int(maxSize)), key)
 	}
 	allSizes := func(keys []string, bucket string) {
 		for ms := 1; ms <= len(keys)+1; ms++ {
